@@ -25,9 +25,18 @@ type Recorder struct {
 
 func NewRecorder() *Recorder { return &Recorder{notify: make(chan struct{}, 1)} }
 
+// MaxFrames bounds what one run may hand on: a depacketizer loop that never advances would
+// otherwise fill the memory long before the hang watchdog fires.  No generated stream has more
+// than a few hundred units.
+const MaxFrames = 200000
+
 func (r *Recorder) WriteFrame(f *codec.Frame) error {
 	cp := &codec.Frame{MediaType: f.MediaType, Dts: f.Dts, Pts: f.Pts, Payload: append([]byte(nil), f.Payload...)}
 	r.mu.Lock()
+	if len(r.frames) >= MaxFrames {
+		r.mu.Unlock()
+		panic(fmt.Sprintf("verif: more than %d frames handed on in one run (a loop that does not advance?)", MaxFrames))
+	}
 	r.frames = append(r.frames, cp)
 	r.mu.Unlock()
 	select {
